@@ -321,7 +321,7 @@ func Minimise(spec *RunSpec, prop, sig string, opts RunOpts, budget int) (*RunSp
 			// merge neighbours of the same task
 			var m []simrt.Segment
 			for _, sg := range cur.Sched.Segs {
-				if n := len(m); n > 0 && m[n-1].Task == sg.Task {
+				if n := len(m); n > 0 && m[n-1].Task == sg.Task && !m[n-1].Kill && !sg.Kill {
 					m[n-1].Steps += sg.Steps
 				} else {
 					m = append(m, sg)
